@@ -618,6 +618,30 @@ pub fn reorder_decls(src: &str, how: &str) -> Option<String> {
     match how {
         "reverse" => d.reverse(),
         "rotate" => d.rotate_left(1),
+        "interleave" => {
+            // entry points of the three stages taken in turns (v1, f1, c1, v2, f2, ...), everything else first
+            let stage_of = |s: &String| -> Option<usize> {
+                let t = s.trim_start();
+                if t.starts_with("@vertex") { Some(0) } else if t.starts_with("@fragment") { Some(1) } else if t.starts_with("@compute") { Some(2) } else { None }
+            };
+            let mut rest = vec![];
+            let mut by_stage: [Vec<String>; 3] = [vec![], vec![], vec![]];
+            for x in d.drain(..) {
+                match stage_of(&x) {
+                    Some(k) => by_stage[k].push(x),
+                    None => rest.push(x),
+                }
+            }
+            let n = by_stage.iter().map(|v| v.len()).max().unwrap_or(0);
+            for i in 0..n {
+                for st in by_stage.iter() {
+                    if let Some(x) = st.get(i) {
+                        rest.push(x.clone());
+                    }
+                }
+            }
+            d = rest;
+        }
         _ => {
             let is_fn = |s: &String| s.contains("fn ");
             let (mut f, r): (Vec<String>, Vec<String>) = d.into_iter().partition(is_fn);
